@@ -191,14 +191,16 @@ func VerifyMessage(p ec.Point, id, msg, sig []byte) Reason {
 	return Verify(p, e, sig)
 }
 
-// DigestFor returns the 32-byte digest e that makes the pair (r,s), both in
-// [1,n-1] with (r+s) mod n != 0, a valid signature under p: e = r - x([s]G+[t]P)
-// mod n. ok is false when that point is the point at infinity. It is used to
-// build valid signatures with prescribed r and s (no private key is needed).
+// DigestFor returns the 32-byte digest e for which the residues of r and s mod n
+// satisfy the verification equation under p: e = r - x([s]G+[t]P) mod n with
+// t = (r+s) mod n. ok is false when that point is the point at infinity. It is
+// used to build valid signatures with prescribed r and s (no private key is
+// needed) and traps: pairs that satisfy the equation but break another rule
+// (t = 0, r or s congruent to 0, r or s outside [1,n-1]).
 func DigestFor(p ec.Point, r, s *big.Int) (digest []byte, ok bool) {
 	t := new(big.Int).Add(r, s)
 	t.Mod(t, ec.N)
-	q := MulAdd(s, t, p)
+	q := MulAdd(new(big.Int).Mod(s, ec.N), t, p)
 	if q.Inf {
 		return nil, false
 	}
